@@ -3,6 +3,7 @@ from __future__ import annotations
 import hashlib
 import pickle
 import random
+import sys
 import threading
 from collections import defaultdict, deque
 
@@ -154,6 +155,7 @@ class _Collective(_Op):
         super().__init__(rank)
         self.comm, self.kind, self.root, self.value = comm, kind, root, value
         self.rec = None
+        self.site = _site()
 
     def post(self, w):
         me = self.comm.Get_rank_of(self.rank)
@@ -166,6 +168,7 @@ class _Collective(_Op):
         rec["arrived"][me] = pickle.dumps(self.value) if self.kind != "Bcast" else self.value
         self.rec, self.k = rec, k
         w.event(self.rank, self.kind, comm=self.comm.cid, k=k)
+        w.coll_sites.setdefault(self.rank, []).append([self.comm.cid, self.kind, self.site])
 
     def enabled(self, w):
         rec, n, me = self.rec, len(self.comm.members), self.comm.Get_rank_of(self.rank)
@@ -203,6 +206,18 @@ class _Collective(_Op):
 
     def describe(self):
         return f"{self.kind}(comm={self.comm.cid}, waiting for {len(self.comm.members) - len(self.rec['arrived'])} more)"
+
+
+def _site() -> str:
+    """the library function (file:qualified name@line) from which the current MPI call was made"""
+    f = sys._getframe(1)
+    while f is not None:
+        fn = f.f_code.co_filename
+        if "/yaw/" in fn and "fakempi" not in fn:
+            rel = fn.split("/yaw/", 1)[1]
+            return f"{rel}:{getattr(f.f_code, 'co_qualname', f.f_code.co_name)}@{f.f_lineno}"
+        f = f.f_back
+    return "-"
 
 
 def _label(obj) -> str:
@@ -293,6 +308,7 @@ class World:
         self.results, self.errors = {}, {}
         self.chan = defaultdict(deque)
         self.coll, self.coll_count = {}, defaultdict(int)
+        self.coll_sites = {}
         self.msg_counter = 0
         self.trace = []
         self.aborted = False
@@ -382,4 +398,5 @@ class World:
             _world = None
         unreceived = [dict(comm=k[0], src=k[1], dst=k[2], tag=k[3], label=m["label"]) for k, q in self.chan.items() for m in q]
         return {"results": self.results, "errors": self.errors, "deadlock": self.deadlock, "unreceived": unreceived,
-                "choices": self.schedule.log, "steps": steps}
+                "choices": self.schedule.log, "steps": steps,
+                "coll_sites": {str(r): v for r, v in self.coll_sites.items()}}
